@@ -34,11 +34,18 @@ class VThread:
       if s.killing:
         return
       self.state = "running"
+      if getattr(s, "trace_funcs", None):
+        import sys as _sys
+        _sys.settrace(s.make_tracer())      # line-level pre-emption inside the named functions
       self.target(*self.args, **self.kwargs)
     except SchedExit:
       pass
     except BaseException as ex:  # noqa
       self.exc = ex
+      tol = getattr(s, "tolerate", None)
+      if tol is not None and tol(self.name, ex):        # an injected fault: the thread dies, the run goes on
+        s.__dict__.setdefault("tolerated", []).append((self.name, type(ex).__name__))
+        return
       s.errors.append((self.name, type(ex).__name__, "".join(traceback.format_exception(type(ex), ex, ex.__traceback__))[-1500:]))
     finally:
       self.state = "done"
@@ -102,6 +109,28 @@ class Sched:
     """API-level marker in the trace (no scheduling point)"""
     vt = self.me()
     self.log.append([len(self.log), vt.name if vt else "driver", "note:" + _kind, "", kw, None])
+
+  # ---- optional line-level pre-emption (for shared state that is plain Python data) ----
+  def make_tracer(self):
+    """trace_funcs: set of (file basename, function name).  Inside those functions every source line is a
+    scheduling point: the interpreter may switch threads between any two bytecodes, so races on plain
+    dicts/lists (no shim) are only reachable this way."""
+    import os
+    want = self.trace_funcs
+    me = self
+
+    def local(frame, event, arg):
+      if event == "line":
+        me.point("line", "%s:%d" % (frame.f_code.co_name, frame.f_lineno))
+      return local
+
+    def tracer(frame, event, arg):
+      if event == "call":
+        co = frame.f_code
+        if (os.path.basename(co.co_filename), co.co_name) in want:
+          return local
+      return None
+    return tracer
 
   # ---- thread creation ------------------------------------------------------
   def spawn(self, name, target, *args, **kwargs):
